@@ -402,6 +402,7 @@ class Spec:
     describe: Callable[[Any], Any] = lambda c: c              # case -> sample for the evidence
     extra: Optional[Callable[["Ctx"], dict]] = None           # extra coverage keys / side checks
     model_equal: Optional[Callable[[Any, str, str], bool]] = None  # (case, impl, model) -> agree?
+    shard: int = 400                                          # cases per Cases<k>.v file (coq_eval)
     histogram: Optional[Callable[[Any, str], str]] = None     # case class for the distribution
 
 
@@ -425,7 +426,11 @@ def safe_impl(spec: Spec, case) -> str:
     except BaseException as e:  # the driver itself should map expected exceptions
         if isinstance(e, KeyboardInterrupt):
             raise
-        return "CRASH:" + exc_name(e) + ":" + str(e)[:200].replace("\n", " ")
+        try:
+            text = str(e)
+        except BaseException:  # exceptions whose own __str__ raises
+            text = "<unprintable>"
+        return "CRASH:" + exc_name(e) + ":" + text[:200].replace("\n", " ")
 
 
 def write_replay(pid: str, payload: dict) -> str:
@@ -541,7 +546,7 @@ def run_spec(spec: Spec, tier: str, seed: int, replay: Optional[str] = None) -> 
                 idx.append(i)
                 terms.append(t)
         try:
-            outs = coq_eval(pid, spec.coq_header, spec.coq_fn, terms)
+            outs = coq_eval(pid, spec.coq_header, spec.coq_fn, terms, shard=spec.shard)
             modelled = len(outs)
             eq = spec.model_equal or (lambda c, a, b: a == b)
             for i, m in zip(idx, outs):
